@@ -1015,6 +1015,14 @@ fn process_write_batch(
     }
 
     if !batch_writes.is_empty() {
+        #[cfg(feoxdb_verif)]
+        crate::verif::proto::event(
+            crate::verif::proto::Kind::BatchAllocated,
+            batch_writes[0].0,
+            batch_writes.len() as u64,
+            &[],
+            0,
+        );
         let mut disk_guard = disk_io.write();
         for write in &prepared_writes {
             mark_reservation_dirty(&write.entry);
